@@ -108,7 +108,10 @@ class Ops:
             # index is a signed integer of its width: interpret
             ia = self.signed_view(st, iv)
             if ia is None:
-                return Top('ptr', 'gep index of unknown sign')
+                # sign not known: keep the unsigned view.  If the index is really negative its unsigned value is
+                # >= 2^(w-1), so every bounds obligation on the resulting pointer fails in both readings
+                # (no object is larger than PTRDIFF_MAX); if it is non-negative the two readings coincide.
+                ia = iv.a
             off = off.add(ia.mul(scale))
             t = nt
         if isinstance(base, Ptr):
